@@ -1797,10 +1797,16 @@ class InterInventoryTree(InterTree):
         # process parents of things that had changed under the users
         # requested paths to prevent incorrect paths or parent ids which
         # aren't in the tree.
+        # The ids this loop has looked at already: examining one again gives the
+        # same answer, and can go on for ever (an entry that moved to below the
+        # unchanged entry now at its old path asks for that entry, which in turn
+        # finds it at its path in source).
+        examined_file_ids = set()
         while precise_file_ids:
             precise_file_ids.discard(None)
             # Don't emit file_ids twice
             precise_file_ids.difference_update(changed_file_ids)
+            precise_file_ids.difference_update(examined_file_ids)
             if not precise_file_ids:
                 break
             # If the there was something at a given output path in source, we
@@ -1817,9 +1823,11 @@ class InterInventoryTree(InterTree):
                     pass
             for path in paths:
                 old_id = self.source.path2id(path)
-                precise_file_ids.add(old_id)
+                if old_id not in changed_file_ids and old_id not in examined_file_ids:
+                    precise_file_ids.add(old_id)
             precise_file_ids.discard(None)
             current_ids = precise_file_ids
+            examined_file_ids.update(current_ids)
             precise_file_ids = set()
             # We have to emit all of precise_file_ids that have been altered.
             # We may have to output the children of some of those ids if any
